@@ -84,6 +84,19 @@ CLAIMED['C10'] = (
     'max_errors; trees exhausted.',
     'sizes: 5-6 keys per data class, containers <= 3 elements, one 4-parameter function; nested collection is not explored',
     'symbolic execution of the real code (CrossHair primitives + z3), differential assertion, path-tree exhaustion, concrete replay')
+CLAIMED['C04'] = (
+    'Two engines. (E1) symbolic execution of the real parse entry points (Rule.parse, LogicalType.logical_parse, '
+    'init_dataclass, FunctionParser wrappers) for 50 declared types in 8 groups with solver-chosen inputs (solver ints, '
+    'special floats, vocabulary and symbolic strings, bytes-likes, 30 hostile objects, containers / iterators / mappings of '
+    'those; options and policies solver-picked in the structural obligations): anything but a ParseError leaving the call, a '
+    'body / __validate__ that ran although the call failed, or a call that does not return (per-path alarm, replay under a '
+    'watchdog) is a violation. These trees are not expected to close: solver-driven exploration, stated as non-exhaustive. '
+    '(E2) the while loops of utils/transform.py are translated from their AST into QF_FP queries over all IEEE doubles '
+    '(non-progress query + halving lemma, guards in front of the loop read from the source); both must be unsat in two z3 '
+    'builds for the loop to count as terminating.',
+    'E1 obligations report EXPLORED-NO-VIOLATION (bug-hunting strength) unless the tree closes; E2 obligations are proofs '
+    'over all doubles for the recognised loop shape; loops of other shapes are INCONCLUSIVE, never passed',
+    'symbolic execution of the real code (CrossHair primitives + z3) with concrete replay; SMT (z3 QF_FP) obligations generated from loop ASTs')
 NOT_APPLICABLE = {}
 
 def main():
